@@ -153,6 +153,26 @@ def work(ctx, tier):
                 ctx.sample({"scenario": {"cfg": sc["cfg"], "place": sc["place"], "call0": sc["calls"][0]}, "baseline": common.describe(b[0], 30), "plan": "each hook x each invocation index (+always) x exception type"})
         ctx.add_hash("scenarios", sc)
         ctx.inc("scenarios")
+    # systematic: policies WITHOUT a retry component (with a breaker: closed, or about to admit its probe) whose single attempt is
+    # called off before it starts, fails, or succeeds - whatever events such a run reports, a hook failing on them changes nothing
+    nr = 0
+    for init in ("closed", "expired"):
+        for shape in ("preflight-abort", "fails", "succeeds", "aborts"):
+            for e in [x for x in rig.BREAKER_ENTRIES if x.lstrip("a").startswith("policy.")]:
+                nr += 1
+                if nr % ctx.nshards != ctx.shard:
+                    continue
+                sc = gen.rand_scenario(rng, max_attempts=(1, 2), p_special=0.0, p_budget=0.0, p_breaker=0.0, p_handler=0.0, p_abort=0.0, ncalls=(1, 1))
+                sc["cfg"]["no_retry"] = True
+                sc["cfg"]["breaker"] = {"threshold": 1, "window": 10.0, "recovery": 5.0, "trip_on": ["TRANSIENT", "SERVER_ERROR"], "class_thresholds": {},
+                                        "pre": [] if init == "closed" else [["fail", "TRANSIENT"], ["adv", 5.0 + gen.G]], "init": init}
+                sc["timeline"] = False
+                sc["poll"] = True
+                c = sc["calls"][0]
+                c["abort_at"] = 0 if shape == "preflight-abort" else None
+                c["outcomes"] = [{"fails": ["exc", "TRANSIENT", None], "succeeds": ["ok"], "aborts": ["sp", "abort"], "preflight-abort": ["ok"]}[shape]]
+                one_scenario(ctx, sc, e, rng, tier, stats)
+                ctx.inc("retryless_scenarios")
     # a slice on the real asyncio loop: awaitable hooks and a sleeper that takes several loop turns, so that a hook failing while
     # the backoff is pending (anything that overlaps the two) shows as a reordered or missing sleep
     aents = [e for e in rig.ASYNC_ENTRIES if not e.startswith("adeco")]
